@@ -45,7 +45,7 @@ def run(ctx):
             small = [".Individuals", ".Name", "|", "(", ")", "Only", "=", "X", "is", ";", '\\"a\\"', "First", "1", "{", "}", ":", ","]
             ctx.tlc("MC_Query_tokens5", files=mc_tokens("MC_Query_tokens5", small[:11] if quick else small, 4 if quick else 5), on_case=on_case, timeout=3000)
             p = ctx.vh(["query", "strings", str(20000 if quick else 400000)])
-            for line in p.stdout.decode(errors="replace").splitlines():
+            for line in p.stdout.decode(errors="replace").split("\n"):
                 if line.strip():
                     fh.write(line + "\n")
                     n[0] += 1
